@@ -114,7 +114,7 @@ def decide(prop, tier, only=None, seed=0):
                     elif f["success"]:
                         r.update(verdict="discharged", reason="", time_s=f["time_ms"] / 1000.0, rlimit=f["rlimit"])
                     else:
-                        errs = per_fn_errs.get(o["fn"], [])
+                        errs = per_fn_errs.get(o["fn"], []) or per_fn_errs.get(o["fn"].split("::")[-1], [])
                         if vr["rlimit"] and not errs:
                             r.update(verdict="undecided", reason="rlimit exceeded")
                         else:
@@ -159,7 +159,7 @@ def _excerpt(stderr, fn, ranges):
     out = []
     for blk in re.split(r"\n(?=error|note)", stderr):
         m = re.search(r"--> [^:\n]+:(\d+):", blk)
-        if m and verus_run.attribute(ranges, int(m.group(1))) == fn:
+        if m and verus_run.attribute(ranges, int(m.group(1))) in (fn, fn.split("::")[-1]):
             out.append(blk)
     return "\n".join(out)[-4000:]
 
